@@ -61,7 +61,24 @@ pub fn run(ctx: &ChildCtx, sh: &mut Shard) {
             cfg.max_iters = 1 + r.below(40);
             sh.hit("modules.loop_heavy");
         }
-        let m = wasmref::gen::gen_module(&mut r, &cfg);
+        let m = if idx % 64 == 11 {
+            // one very long straight-line segment: its summed price exceeds 16 bits
+            sh.hit("modules.long_segment");
+            let mut m = Module::default();
+            m.types.push(FuncTy { params: vec![], result: Some(Ty::I32) });
+            let n = *r.pick(&[65_530usize, 65_536, 65_540, 70_000, 131_080]);
+            let mut body = vec![Instr::Op(OP_NOP); n];
+            for _ in 0..r.below(200) {
+                body.push(Instr::Const32(r.i32v()));
+                body.push(Instr::Op(OP_DROP));
+            }
+            body.push(Instr::Const32(7));
+            m.funcs.push(Func { ty: 0, locals: vec![], body });
+            m.exports.push(("w0".into(), 0));
+            m
+        } else {
+            wasmref::gen::gen_module(&mut r, &cfg)
+        };
         let bytes = m.encode();
         sh.hit("modules");
         let arts = match instantiate_all(&bytes, v1) {
